@@ -15,14 +15,27 @@ What is modelled (init.rs `init_from_file` / `run_byte_appender_writer`, process
 * the consumer is either the appender's writer thread (console/file/rolling_file) or the
   application holding a custom stream receiver:
     writer:  loop { if flag {break}; recv_timeout → Ok: write | Disconnected: break }
-             then `while let Ok(b) = rx.try_recv() { write }` and exit;
+             then the final drain
+               loop { try_recv → Ok: write | Disconnected: break
+                                | Empty: if now ≥ start + FINAL_DRAIN_GRACE {break} else retry }
+             and exit;
     stream:  the user calls `try_recv`/`recv` until `Disconnected`.
   `consume` takes the head of the visible queue; `seeFlag` is the writer reading `shutdown = true`
-  at the top of its loop; `seeDisconnected` is a receive that finds the queue empty and the sender
-  closed; `drainEmpty` is the writer's final `try_recv` returning `Err` → the thread exits.
+  at the top of its loop. The channel answers `Disconnected` only when every sender handle is
+  closed, nothing is visible AND no send is in flight (`deq_once` answers `InFlight`, reported as
+  `Empty` / keep waiting, while a claimed slot is unwritten): `seeDisconnected` is such a receive in
+  the consumer's main loop, `drainDisconnected` is the writer's final drain ending on it.
+  An `Empty` answer before the deadline is a retry and changes nothing (no step).
+  `graceExpired` is the ENVIRONMENT step "the writer's final `try_recv` answered `Empty` and
+  `FINAL_DRAIN_GRACE` (200 ms since the final drain began) is over" → the thread exits. Real time
+  is not modelled, so the step is enabled whenever that `try_recv` can answer `Empty` (nothing
+  visible, or a send in flight whose unwritten slot hides what is queued behind it); the ghost
+  `graceEarly` records that it fired before the senders were closed and the in-flight sends had
+  landed. The no-loss theorem assumes `graceEarly = false`; `C19_residual_graceExpired_early_loses`
+  shows the assumption is needed.
 * shutdown: `setFlag` (store `shutdown_signal`), then `close` (`close_channels`).
 
-Ghost fields (`accepted`, `dropped`, `refused`, `claimed`) record what happened to each message.
+Ghost fields (`accepted`, `dropped`, `refused`, `claimed`, `graceEarly`) record what happened to each message.
 The channel internals (tickets, credit window, parking) are the subject of C01–C05, not of this
 model; here the channel is its sequential specification plus the visible/in-flight distinction.
 -/
@@ -56,6 +69,7 @@ structure State where
   dropped : List Msg := []
   refused : List Msg := []
   claimed : List Msg := []
+  graceEarly : Bool := false
 deriving Repr
 
 def init (cap : Nat) (policy : Overflow) (consumer : Consumer) : State :=
@@ -67,7 +81,8 @@ inductive Step
   | consume
   | seeFlag
   | seeDisconnected
-  | drainEmpty
+  | drainDisconnected
+  | graceExpired
   | setFlag
   | close
 deriving DecidableEq, Repr
@@ -103,15 +118,30 @@ def consume (s : State) : Option State :=
 def seeFlag (s : State) : Option State :=
   if s.consumer = .writer ∧ s.phase = .running ∧ s.flag then some { s with phase := .draining } else none
 
-/-- consumer: receive finds nothing visible and the sender closed → `Disconnected`. -/
+/-- the channel's `Disconnected` condition: every sender handle closed, nothing visible, and no
+claimed-but-unwritten slot (`Deq::Empty`, not `Deq::InFlight`, with `sender_count == 0`). -/
+def Disconnected (s : State) : Prop := s.closed = true ∧ s.buf = [] ∧ s.inflight = []
+
+instance (s : State) : Decidable (Disconnected s) := by unfold Disconnected; infer_instance
+
+/-- consumer, main loop: the receive answers `Disconnected`. -/
 def seeDisconnected (s : State) : Option State :=
-  if s.phase = .running ∧ s.closed ∧ s.buf = [] then
+  if s.phase = .running ∧ Disconnected s then
     some { s with phase := (match s.consumer with | .writer => .draining | .stream => .exited) }
   else none
 
-/-- writer: final `try_recv` returns `Err` → thread exits. -/
-def drainEmpty (s : State) : Option State :=
-  if s.consumer = .writer ∧ s.phase = .draining ∧ s.buf = [] then some { s with phase := .exited } else none
+/-- writer, final drain: `try_recv` answers `Disconnected` → thread exits. -/
+def drainDisconnected (s : State) : Option State :=
+  if s.consumer = .writer ∧ s.phase = .draining ∧ Disconnected s then some { s with phase := .exited } else none
+
+/-- environment + writer, final drain: `try_recv` answers `Empty` — nothing visible, or a send in
+flight (in the channel a claimed-but-unwritten slot at the head hides completed sends queued behind
+it, the shape of the observed F12b history) — and the grace deadline is over → thread exits.
+`graceEarly` := the channel was not yet `Disconnected`. -/
+def graceExpired (s : State) : Option State :=
+  if s.consumer = .writer ∧ s.phase = .draining ∧ (s.buf = [] ∨ s.inflight ≠ []) then
+    some { s with phase := .exited, graceEarly := s.graceEarly || !decide (Disconnected s) }
+  else none
 
 def step (s : State) : Step → Option State
   | .sendBegin m => sendBegin s m
@@ -119,7 +149,8 @@ def step (s : State) : Step → Option State
   | .consume => consume s
   | .seeFlag => seeFlag s
   | .seeDisconnected => seeDisconnected s
-  | .drainEmpty => drainEmpty s
+  | .drainDisconnected => drainDisconnected s
+  | .graceExpired => graceExpired s
   | .setFlag => some { s with flag := true }
   | .close => some { s with closed := true }
 
@@ -137,7 +168,9 @@ deriving DecidableEq, Repr
 
 /-- lib.rs: `shutdown` calls `shutdown_impl`; `impl Drop for InitResult` calls `shutdown_impl`
 unconditionally (it does not look at `std::thread::panicking()` nor at the current thread).
-`shutdown_impl` = store the flag, then `close_channels`, then join the writers with a deadline. -/
+`shutdown_impl` = store the flag, then `close_channels`, then join the writers with a deadline
+(the join deadline is not modelled: a writer that is still draining when it passes is simply not
+waited for any longer — it keeps running and writing until the process ends). -/
 def shutdownSteps : GuardEnd → List Step
   | .shutdownCall _ => [.setFlag, .close]
   | .drop _ _ => [.setFlag, .close]
